@@ -18,7 +18,11 @@ PROTOCOLS = [2, 2, 2, 2, 1, 0, 3, -1, "2", 2.0, True, None, 1.0]
 UNTRUSTED_REAL = [("os", "system"), ("builtins", "eval"), ("builtins", "exec"), ("subprocess", "Popen"),
                   ("collections", "OrderedDict"), ("operator", "methodcaller"), ("operator", "attrgetter"),
                   ("functools", "partial"), ("numpy", "save"), ("numpy.random", "seed"), ("pathlib", "Path"),
-                  ("builtins", "getattr"), ("importlib", "import_module"), ("colorsys", "rgb_to_hsv"), ("fractions", "Fraction")]
+                  ("builtins", "getattr"), ("importlib", "import_module"), ("colorsys", "rgb_to_hsv"), ("fractions", "Fraction"),
+                  # spellings of other library versions, and module paths that do not resolve although a parent has the attribute
+                  ("numpy.core._multiarray_umath", "sqrt"), ("numpy.core.multiarray", "array"), ("numpy.core.numeric", "ones"),
+                  ("collections.nosuchmod", "OrderedDict"), ("numpy.nosuch", "ndarray"), ("sklearn.preprocessing.nosuch", "StandardScaler"),
+                  ("functools.nosuch.deeper", "partial")]
 
 
 BASELINE = FACTS.parent.parent / "harness" / "facts_baseline.json"
